@@ -274,6 +274,14 @@ class DiffAntisymRBF(DiffRBF):
         KS[:] += np.exp(-0.5 * dists)
         return KS * KT
 
+    def diag(self, X):
+        # This kernel is not normalised: k(x, x) = 2 - 2 g(x0 - x1),
+        # with g the 1D squared-exponential, so the diag of the
+        # parent RBF kernel (all ones) does not apply.
+        length_scale = _check_length_scale(X[:, 1:], self.length_scale)
+        diff = (X[:, 0] - X[:, 1]) / length_scale[0]
+        return 2 - 2 * np.exp(-0.5 * diff * diff)
+
     def k_and_deriv(self, X, Y=None):
         length_scale = _check_length_scale(X[:, 1:], self.length_scale)
         if Y is None:
